@@ -11,13 +11,13 @@ Names == {<<>>} \cup [1..1 -> Comp] \cup [1..2 -> [t : {8, 50}, vlen : {0, 1, 25
          \cup [1..6 -> [t : {8}, vlen : {0, 1}]]     \* many short and empty components (a name of n empty components is 2n bytes)
 HintSets == { <<>>, << <<[t |-> 8, vlen |-> 1]>> >>, << <<[t |-> 8, vlen |-> 253]>>, <<[t |-> 8, vlen |-> 0], [t |-> 8, vlen |-> 5]>> >> }
 \* shapes are drawn field by field from the boundary sets (the full products are far beyond what can be enumerated)
-RandData(i) == [comps |-> RandomElement(Names), ct |-> RandomElement({-1, 0, 255, 256}), fresh |-> RandomElement({-1, 0, 255, 65536}),
+RandData(i) == [comps |-> RandomElement(Names), ct |-> RandomElement({-1, 0, 255, 256}), fresh |-> RandomElement({-1, 0, 255, 65536, 268435455, 268435456, 2147483647}),
                 fbid |-> RandomElement({-1, 0, 253}), content |-> RandomElement({-1, 0, 1, 252, 253, 7000}),
                 signer |-> RandomElement({"none", "sha256", "hmac", "ecdsa", "rsa"}), split |-> RandomElement({1, 2, 3}), id |-> i]
 RandInterest(i) ==
   LET p == RandomElement({-1, -1, 0, 252, 253, 3000})
   IN [comps |-> RandomElement(Names \ {<<>>}), cbp |-> RandomElement(BOOLEAN), mbf |-> RandomElement(BOOLEAN), hints |-> RandomElement(HintSets),
-      nonce |-> RandomElement(BOOLEAN), life |-> RandomElement({-1, 0, 255, 256, 65536}), hop |-> RandomElement({-1, 0, 255}), params |-> p,
+      nonce |-> RandomElement(BOOLEAN), life |-> RandomElement({-1, 0, 255, 256, 65536, 268435455, 268435456, 2147483647}), hop |-> RandomElement({-1, 0, 255}), params |-> p,
       \* a signed Interest carries parameters; asking for a signature WITHOUT parameters (one draw in six) must either be refused
       \* or give a packet that decodes and verifies (I_C12built exempts the refusal, I_C12interest judges the packet)
       signer |-> (IF p >= 0 \/ RandomElement(1..6) = 1 THEN RandomElement({"none", "sha256int", "hmacint", "ecdsaint"}) ELSE "none"), split |-> RandomElement({1, 2, 3}), id |-> i]
